@@ -403,3 +403,5 @@ m('C06-m4', 'C06', W + 'store.rs', 'self.candidates.iter_mut().find(|(id, _)| id
 m('C02-m5', 'C02', W + 'store.rs', """                // cas value present, we can insert new cas value if insertion is forced
                 (true, current != &val, ValueEntry::Cas(val, v + 1))""", """                // cas value present, we can insert new cas value if insertion is forced
                 (false, current != &val, ValueEntry::Cas(val, v + 1))""", 'C02.a')
+m('C07-m4', 'C07', W + 'worterbuch.rs', '        self.ls_subscriptions.insert(subscription_id, path);', '        let _ = (subscription_id, path);', 'C07.e')
+m('C06-m5', 'C06', W + 'worterbuch.rs', '        self.store.lock(client_id, path)?;', '        self.store.lock(client_id, path).ok();', 'C06.f')
